@@ -48,6 +48,7 @@ const (
 var c15KindName = [c15NKinds]string{"STREAM", "STREAM+FIN", "RESET_STREAM", "STOP_SENDING", "MAX_STREAM_DATA", "STREAM_DATA_BLOCKED"}
 var c15ClassName = [4]string{"peer-bidi", "peer-uni", "local-bidi", "local-uni"}
 var c15TypeName = [2]string{"bidi", "uni"}
+var c15CallName = [2]string{"", "Uni"}
 
 func c15KindIsRecv(k int) bool {
 	return k == c15KStream || k == c15KFin || k == c15KReset || k == c15KBlocked
@@ -552,7 +553,7 @@ func (in *c15Inst) applyOpen(t int) *explore.Fail {
 	in.outcome = "open " + c15TypeName[t]
 	got := bs != nil || us != nil
 	if got != (err == nil) {
-		return explore.Failf("open-result:"+c15TypeName[t], "Open%sStream returned stream=%v err=%v", c15TypeName[t], got, err)
+		return explore.Failf("open-result:"+c15TypeName[t], "Open%sStream returned stream=%v err=%v", c15CallName[t], got, err)
 	}
 	normal := !in.closed && !in.resetFlag
 	if got {
@@ -580,7 +581,7 @@ func (in *c15Inst) applyOpen(t int) *explore.Fail {
 		in.tag("refused closed/0rtt")
 	case in.lastLocal[t] < in.peerMax[t]:
 		if isLimit {
-			return explore.Failf("open-limit-error-with-credit:"+c15TypeName[t], "Open%sStream failed with %q although only %d of the %d streams granted by the peer were opened", c15TypeName[t], err, in.lastLocal[t], in.peerMax[t])
+			return explore.Failf("open-limit-error-with-credit:"+c15TypeName[t], "Open%sStream failed with %q although only %d of the %d streams granted by the peer were opened", c15CallName[t], err, in.lastLocal[t], in.peerMax[t])
 		}
 		in.tag("failed other")
 	default:
@@ -629,7 +630,7 @@ func (in *c15Inst) applyAccept(t int) *explore.Fail {
 	in.outcome = "accept " + c15TypeName[t]
 	if !ok {
 		in.dead = true
-		return explore.Failf("accept-blocked:"+c15TypeName[t], "Accept%sStream blocked although the peer has opened %d streams and %d were accepted", c15TypeName[t], in.opened[t], in.accepted[t])
+		return explore.Failf("accept-blocked:"+c15TypeName[t], "Accept%sStream blocked although the peer has opened %d streams and %d were accepted", c15CallName[t], in.opened[t], in.accepted[t])
 	}
 	got := bs != nil || us != nil
 	if got != (err == nil) {
@@ -637,7 +638,7 @@ func (in *c15Inst) applyAccept(t int) *explore.Fail {
 	}
 	if !got {
 		if must {
-			return explore.Failf("accept-missed:"+c15TypeName[t], "Accept%sStream returned %v although the peer has opened %d streams and only %d were accepted", c15TypeName[t], err, in.opened[t], in.accepted[t])
+			return explore.Failf("accept-missed:"+c15TypeName[t], "Accept%sStream returned %v although the peer has opened %d streams and only %d were accepted", c15CallName[t], err, in.opened[t], in.accepted[t])
 		}
 		switch {
 		case in.closed:
@@ -651,10 +652,10 @@ func (in *c15Inst) applyAccept(t int) *explore.Fail {
 	}
 	want := in.idOf(class, in.accepted[t]+1)
 	if !avail {
-		return explore.Failf("accept-phantom:"+c15TypeName[t], "Accept%sStream returned stream %d although all %d streams opened by the peer were accepted already", c15TypeName[t], id, in.opened[t])
+		return explore.Failf("accept-phantom:"+c15TypeName[t], "Accept%sStream returned stream %d although all %d streams opened by the peer were accepted already", c15CallName[t], id, in.opened[t])
 	}
 	if id != want {
-		return explore.Failf("accept-order:"+c15TypeName[t], "Accept%sStream returned stream %d, the next stream in id order is %d", c15TypeName[t], id, want)
+		return explore.Failf("accept-order:"+c15TypeName[t], "Accept%sStream returned stream %d, the next stream in id order is %d", c15CallName[t], id, want)
 	}
 	s := in.strs[id]
 	explore.Must(s != nil, "model lost stream %d", id)
@@ -818,7 +819,7 @@ func (in *c15Inst) settle(op explore.Op) *explore.Fail {
 		t := in.openAtLimit
 		in.openAtLimit = -1
 		if !in.blocked[t][in.peerMax[t]] {
-			return explore.Failf("streams-blocked-missing:"+c15TypeName[t], "Open%sStream failed at the peer's limit %d but no STREAMS_BLOCKED was ever queued for this limit", c15TypeName[t], in.peerMax[t])
+			return explore.Failf("streams-blocked-missing:"+c15TypeName[t], "Open%sStream failed at the peer's limit %d but no STREAMS_BLOCKED was ever queued for this limit", c15CallName[t], in.peerMax[t])
 		}
 	}
 	return nil
